@@ -98,7 +98,8 @@ fn check_with(c: &Case, all_points: bool) -> CheckResult {
     let cap: usize = c.cap.max(8);
     for k in 0..n {
         let r = &rec.recs[k];
-        if matches!(r, Rec::Begin { .. }) {
+        if matches!(r, Rec::Begin { .. } | Rec::End { .. }) {
+            // once the growing call has returned everything it did is owed like any other call
             growth_in_call = false;
         }
         if let Rec::Truncate { ino, len } = r {
